@@ -24,7 +24,7 @@ Loc(t) == Join(SpDir(t.sp), t.subdir)
 EndsWith(s, suf) == Len(s) >= Len(suf) /\ SubSeq(s, Len(s) - Len(suf) + 1, Len(s)) = suf
 DropSuffix(s, n) == SubSeq(s, 1, Len(s) - n)
 
-BuildKinds == {"exe", "static", "shared", "both", "lib"}
+BuildKinds == {"exe", "static", "shared", "both", "lib", "module"}   \* module: shared_module()
 IsBuild(t) == t.kind \in BuildKinds
 IsRunLike(t) == t.kind \in {"run", "alias"}
 IsBuildable(t) == IsBuild(t) \/ t.kind = "custom"
@@ -39,6 +39,7 @@ OutDir(p, t) == IF IsRunLike(t) THEN ""
 LibTypes(p, t) ==
     CASE t.kind = "static" -> {"static"}
       [] t.kind = "shared" -> {"shared"}
+      [] t.kind = "module" -> {"shared"}
       [] t.kind = "both"   -> {"shared", "static"}
       [] t.kind = "lib"    -> (IF p.deflib = "both" THEN {"shared", "static"} ELSE {p.deflib})
       [] OTHER -> {}
